@@ -43,13 +43,15 @@ RULE = ('model layer: random model specs x planned partial-declaration styles x 
         'histories with dtype switches and masks; distinct = structural description (wiring features, styles, '
         'placement, history); non-trivial = the reference has a src_indices mapping, a unit factor or duplicate '
         'entries')
-MIN_JUDGED = {'quick': 150, 'thorough': 3000}
+MIN_JUDGED = {'quick': 700, 'thorough': 20000}
 REQUIRED_COUNTERS = ['cell:dict/fwd', 'cell:dict/rev', 'cell:DenseMatrix/fwd', 'cell:DenseMatrix/rev',
                      'cell:CSCMatrix/fwd', 'cell:CSCMatrix/rev', 'cell:CSRMatrix/fwd', 'cell:CSRMatrix/rev',
                      'obs:dup-within-subjac', 'obs:dup-across-subjacs', 'obs:src_indices', 'obs:unit-factor',
                      'obs:dtype-switch', 'obs:relinearize', 'obs:todense-drdo', 'obs:todense-drdi',
                      'obs:comp-level-assembled', 'obs:subgroup-assembled', 'obs:root-assembled',
-                     'obs:direct-solver', 'obs:krylov-solver', 'obs:newton-linear-solver']
+                     'obs:direct-solver', 'obs:krylov-solver', 'obs:newton-linear-solver',
+                     'cell:COOMatrix/fwd', 'cell:COOMatrix/rev', 'obs:matrix-todense', 'obs:matrix-dtype-switch',
+                     'obs:matrix-update>=2', 'obs:matrix-mask', 'cell:drdi-CSRMatrix/fwd', 'cell:drdi-CSRMatrix/rev']
 ASSUMPTIONS = ['the harness components hand OpenMDAO exactly the triplets they record (own code)',
                'explicit components contribute -I for their own outputs (documented residual convention)',
                'tolerance 1e-12 * |D|_F * |v|_2 (round-off of <= ~100 products per row is ~1e-14 relative)',
@@ -65,8 +67,11 @@ FORMATS = ('dict', 'dense', 'csc', 'csr')
 
 def shards(tier, seed):
     n = 16 if tier == 'quick' else 64
-    per = 20 if tier == 'quick' else 130
+    per = 16 if tier == 'quick' else 100
     out = [{'layer': 'model', 'seed': seed * 100000 + i * 1000, 'n': per} for i in range(n)]
+    nm = 4 if tier == 'quick' else 16
+    perm = 200 if tier == 'quick' else 1500
+    out += [{'layer': 'matrix', 'seed': seed * 1000000 + 500000 + i * 10000, 'n': perm} for i in range(nm)]
     return out
 
 
@@ -791,7 +796,8 @@ def _matrix_case(case, acc):
             subjacs = make_subjacs(vals0)
             submats = {k: v[0] for k, v in subjacs.items()}
             M = classes[cname](submats)
-            M._build(nr, nc, float)
+            # SplitJacobian builds with complex when it is created under complex step
+            M._build(nr, nc, complex if desc['history'][0]['complex'] else float)
         except Exception as e:
             acc.viol(exc_key('matrix:build:%s' % cname, e), '%s: %s' % (type(e).__name__, str(e)[:200]), case)
             return
